@@ -525,6 +525,43 @@ def modulus_sites(repo):
     return out
 
 
+def _field_tables(zk):
+    """module-level tables  NAME = {"curve": <int literal>, ...}  of the zkinterface backend"""
+    out = {}
+    for s in zk.tree.body:
+        if isinstance(s, ast.Assign) and len(s.targets) == 1 and isinstance(s.targets[0], ast.Name) and isinstance(s.value, ast.Dict) \
+                and s.value.keys and all(isinstance(k, ast.Constant) and isinstance(k.value, str) for k in s.value.keys):
+            vals = {k.value: int_literal(v) for k, v in zip(s.value.keys, s.value.values)}
+            if all(v is not None for v in vals.values()):
+                out[s.targets[0].id] = vals
+    return out
+
+
+def modulus_value(node, repo):
+    """the integer a modulus expression denotes: a literal, TABLE["name"], or a field name that set_modulus() looks up in a
+    module-level table of the zkinterface backend"""
+    v = int_literal(node)
+    if v is not None or node is None:
+        return v
+    zk = repo.modules.get("pysnark.zkinterface.backend")
+    if zk is None:
+        return None
+    tabs = _field_tables(zk)
+    if isinstance(node, ast.Subscript) and isinstance(node.value, ast.Name) and node.value.id in tabs and isinstance(node.slice, ast.Constant):
+        return tabs[node.value.id].get(node.slice.value)
+    if isinstance(node, ast.Constant) and isinstance(node.value, str):
+        sm = zk.functions.get("set_modulus")
+        if sm is not None and sm.params:
+            p_ = sm.params[0]
+            for x in ast.walk(sm.node):
+                if isinstance(x, ast.Subscript) and isinstance(x.value, ast.Name) and x.value.id in tabs and norm(x.slice) == p_:
+                    return tabs[x.value.id].get(node.value)
+                if isinstance(x, ast.Call) and isinstance(x.func, ast.Attribute) and x.func.attr == "get" and isinstance(x.func.value, ast.Name) \
+                        and x.func.value.id in tabs and x.args and norm(x.args[0]) == p_:
+                    return tabs[x.func.value.id].get(node.value)
+    return None
+
+
 def moduli(repo, rule):
     sites = modulus_sites(repo)
     for nm, (m, binding, node) in sorted(sites.items()):
@@ -535,13 +572,13 @@ def moduli(repo, rule):
                 rule.violation("%s:1" % m.relpath, m.name, "%d set_modulus calls" % len(calls),
                                "derived backend must install its field exactly once at import", "%s/count" % nm)
                 continue
-            lit = int_literal(calls[0].value.args[0]) if calls[0].value.args else None
+            lit = modulus_value(calls[0].value.args[0], repo) if calls[0].value.args else None
             where = "%s:%s" % (m.relpath, calls[0].lineno)
         else:
             if node is None:
                 rule.undecided("%s:1" % m.relpath, m.name, "modulus binding %s" % binding, "literal not found at module level")
                 continue
-            lit = int_literal(node.value)
+            lit = modulus_value(node.value, repo)
             where = "%s:%s" % (m.relpath, node.lineno)
         if lit is None:
             rule.undecided(where, m.name, "modulus of %s" % nm, "not an integer literal")
@@ -627,7 +664,10 @@ def inverse(repo, rule):
     x_, m_ = [a.arg for a in fb.args.args][:2]
     pows = [n for n in ast.walk(fb) if isinstance(n, ast.Call) and norm(n.func) in ("pow", "powmod") and len(n.args) == 3]
     good = [p for p in pows if norm(p.args[0]) == x_ and norm(p.args[1]) in ("%s - 2" % m_, "-1") and norm(p.args[2]) == m_]
-    zero = [n for n in ast.walk(fb) if isinstance(n, ast.If) and norm(n.test) in ("y == 0", "not y", "0 == y")
+    # the name(s) the power is bound to
+    ynames = {norm(a.targets[0]) for a in ast.walk(fb) if isinstance(a, ast.Assign) and len(a.targets) == 1
+              and any(x is p_ for p_ in good for x in ast.walk(a.value))}
+    zero = [n for n in ast.walk(fb) if isinstance(n, ast.If) and any(norm(n.test) in ("%s == 0" % y_, "not %s" % y_, "0 == %s" % y_) for y_ in ynames)
             and any(isinstance(b, ast.Raise) for b in n.body)]
     if not zero:
         # the other way round: the result is returned only under `y != 0`, and a raise follows
